@@ -760,6 +760,20 @@ AckedDurable ==
             /\ w.off <= synced[n]
             /\ Cardinality({f \in Nodes \ {n} : up[f] => (w.off <= synced[f] /\ wal[f][w.off] = wal[n][w.off])}) >= Quorum(lead[n].rf)
 
+\* C08 "does not fail spuriously", as a state predicate: when nothing is in flight any more (every follower of
+\* a quorum is connected, has received, synced and acknowledged everything, all acks are delivered, no sync
+\* round is pending anywhere) the leader of the current term has committed its whole log - no write is stuck
+CaughtUp(l, f) == /\ streams[<<l, f>>] # NULL /\ streams[<<l, f>>].app = <<>> /\ streams[<<l, f>>].ack = <<>>
+                  /\ up[f] /\ fol[f] # NULL /\ fol[f].parked = {} /\ fol[f].stream = streams[<<l, f>>].id
+                  /\ lead[l].cur[f] # NULL /\ lead[l].cur[f].sid = streams[<<l, f>>].id
+                  /\ Len(wal[f]) = Len(wal[l]) /\ synced[f] = Len(wal[f]) /\ lead[l].cur[f].pushed = Len(wal[l])
+QuiescentCommitted ==
+    \A l \in Nodes :
+        (/\ up[l] /\ lead[l] # NULL /\ status[l] = "LEADER" /\ ~lead[l].busy /\ term[l] = meta.term
+         /\ lead[l].cbq = {} /\ synced[l] = Len(wal[l])
+         /\ Cardinality({f \in Nodes \ {l} : CaughtUp(l, f)}) >= Quorum(lead[l].rf))
+        => lead[l].commit = lead[l].head /\ lead[l].head = Len(wal[l])
+
 TypeOK ==
     /\ \A n \in Nodes : synced[n] <= Len(wal[n]) /\ Len(applied[n]) <= Len(wal[n]) + MaxWrites
     /\ \A n \in Nodes : (lead[n] # NULL) => ctrl[n] = "leader"
